@@ -1,23 +1,32 @@
 // Command edittrace drives slice.EditScript (and, through the verif hook, editScriptFunc under
 // other equivalences) of the working tree and records inputs and observables, one case per line:
 //
-//	E <mode> <lhs> <rhs> | <edits> / <lhs after> / <rhs after>
+//	E <mode> <lhs> <rhs> [<lx> <rx>] | <edits> / <lhs array after> / <rhs array after>
 //
 // lhs, rhs: comma-separated non-negative ints, "." when empty.
+// lx, rx: what the spare capacity of the two inputs holds.  The harness builds each input as a
+// window into a larger array  guard,guard ++ lhs ++ lx  with len = len(lhs) and
+// cap = len(lhs)+len(lx) (a three-index slice), so cap-len is exactly len(lx), down to 0.  Go
+// checks slice bounds against cap, so code that slices past len would expose lx (the model is
+// given lx, rx and predicts that too).  Without the two fields (older corpus lines):
+// lx = 777,777,777 and rx = 888,888,888.
 // mode 0: the public EditScript on []int (==).
-// mode k>0: editScriptFunc with eq(a,b) = (a%k == b%k): an element is a key (v%k) with a payload
-// (v/k) the equivalence ignores, so which side's element ends up in X/Y is visible.
+// mode 1..99 (k): editScriptFunc with eq(a,b) = (a%k == b%k): an element is a key (v%k) with a
+// payload (v/k) the equivalence ignores, so which side's element ends up in X/Y is visible.
+// mode 100+k: editScriptFunc with eq(a,b) = (a/k == b/k) (classes are intervals; payload v%k).
 // mode -1: editScriptFunc with the reflexive, symmetric, NOT transitive eq(a,b) = |a-b| <= 1
-// (outside the property's precondition: correspondence only).
-// mode -2: editScriptFunc with the irreflexive eq(a,b) = a < b (outside the precondition:
-// correspondence only; the re-matching loops can run off the end, which exercises the model's
-// panic results).
+// mode -2: the irreflexive eq(a,b) = a < b (the re-matching loops can run off the end, which
+// exercises the model's panic results).
+// mode -3: the reflexive, transitive, NOT symmetric eq(a,b) = a <= b.
+// Negative modes are outside the property's precondition: correspondence only.
 //
 // edits: "." for an empty script, else ';'-joined  <op>:<xoff>:<X>:<yoff>:<Y>  where op is the
 // Op byte (- = + !), X and Y are the element lists ("." when empty) and xoff/yoff say where the
-// slice aliases the input: the index i with &lhs[i] == &X[0] (resp. rhs, Y), "-" for an empty
-// slice, "?" when it is not a sub-slice of the input at all.  A panic is "PANIC <kind>".
-// The inputs are printed again after the call (EditScript must not modify them).
+// slice aliases the input and how far it may be re-extended: "<i>/<c>" with i the index such that
+// &lhs[i] == &X[0] (resp. rhs, Y) and c = cap(X); "-" for an empty slice, "?" when it is not a
+// sub-slice of the input at all.  A panic is "PANIC <kind>".
+// After the call the two whole backing arrays (guards, input, spare capacity) are printed:
+// EditScript must not modify them.
 package main
 
 import (
@@ -30,12 +39,17 @@ import (
 
 func eqFor(mode int) func(a, b int) bool {
 	switch {
+	case mode > 100:
+		k := mode - 100
+		return func(a, b int) bool { return a/k == b/k }
 	case mode > 0:
 		return func(a, b int) bool { return a%mode == b%mode }
 	case mode == -1:
 		return func(a, b int) bool { d := a - b; return d >= -1 && d <= 1 }
 	case mode == -2:
 		return func(a, b int) bool { return a < b }
+	case mode == -3:
+		return func(a, b int) bool { return a <= b }
 	}
 	return func(a, b int) bool { return a == b }
 }
@@ -46,27 +60,36 @@ func off(base, sub []int) string {
 	}
 	for i := range base {
 		if &base[i] == &sub[0] {
-			return strconv.Itoa(i)
+			return strconv.Itoa(i) + "/" + strconv.Itoa(cap(sub))
 		}
 	}
 	return "?"
 }
 
+const guardL, guardR = 555, 666
+
+// window builds  guard,guard ++ s ++ extra  and returns the whole array and the window onto s
+// with capacity exactly len(s)+len(extra).
+func window(s, extra []int, guard int) (arr, win []int) {
+	arr = make([]int, 0, 2+len(s)+len(extra))
+	arr = append(arr, guard, guard)
+	arr = append(arr, s...)
+	arr = append(arr, extra...)
+	return arr, arr[2 : 2+len(s) : len(arr)]
+}
+
 func exec(in string) string {
 	f := strings.Fields(in)
-	if len(f) != 4 || f[0] != "E" {
+	if (len(f) != 4 && len(f) != 6) || f[0] != "E" {
 		return "?"
 	}
 	mode, _ := strconv.Atoi(f[1])
-	lhs, rhs := tr.UnInts(f[2]), tr.UnInts(f[3])
-	// give the inputs spare capacity filled with a sentinel, so that a slice expression that
-	// runs past len() shows up as a value instead of being masked
-	lhs = append(make([]int, 0, len(lhs)+3), lhs...)
-	rhs = append(make([]int, 0, len(rhs)+3), rhs...)
-	for i := 0; i < 3; i++ {
-		lhs[: cap(lhs)][len(lhs)+i] = 777
-		rhs[: cap(rhs)][len(rhs)+i] = 888
+	lx, rx := []int{777, 777, 777}, []int{888, 888, 888}
+	if len(f) == 6 {
+		lx, rx = tr.UnInts(f[4]), tr.UnInts(f[5])
 	}
+	larr, lhs := window(tr.UnInts(f[2]), lx, guardL)
+	rarr, rhs := window(tr.UnInts(f[3]), rx, guardR)
 	var es []slice.Edit[int]
 	p := tr.Catch(func() {
 		if mode == 0 {
@@ -89,7 +112,7 @@ func exec(in string) string {
 		sb.WriteByte(byte(e.Op))
 		sb.WriteString(":" + off(lhs, e.X) + ":" + tr.Ints(e.X) + ":" + off(rhs, e.Y) + ":" + tr.Ints(e.Y))
 	}
-	sb.WriteString(" / " + tr.Ints(lhs) + " / " + tr.Ints(rhs))
+	sb.WriteString(" / " + tr.Ints(larr) + " / " + tr.Ints(rarr))
 	return sb.String()
 }
 
@@ -115,6 +138,9 @@ func allSeqs(alpha []int, maxLen int) [][]int {
 // property text is about) -- the generator's rule for "non-trivial".
 func ambiguous(l, r []int, mode int) bool {
 	key := func(v int) int {
+		if mode > 100 {
+			return v / (mode - 100)
+		}
 		if mode > 0 {
 			return v % mode
 		}
@@ -138,46 +164,112 @@ func ambiguous(l, r []int, mode int) bool {
 }
 
 func main() {
-	tr.Main("C11: every pair of sequences over 2 symbols to length 6 (quick) / 8 (thorough), over 3 symbols to length 4 / 5, over 2 keys x 2 payloads under key equivalence to length 3 / 4; random pairs derived from a common base by dropping, inserting and overwriting runs (long common runs), over 2-4 symbols (heavy repetition), lengths to 60 (a few to 200), under ==, under key equivalence mod 2..4, and (correspondence only, outside the precondition) under a non-transitive and an irreflexive relation, where the real code panics and the model must predict it. Non-trivial = a side repeats an element (ambiguous alignment); distinct = distinct input lines.",
+	tr.Main("C11: every pair of sequences over 2 symbols to length 6 (quick) / 8 (thorough), over 3 symbols to length 4 / 5, over 2 keys x 2 payloads under the two key equivalences (v%2, v/2) to length 3 / 4; random pairs derived from a common base by dropping, inserting and overwriting runs (long common runs), over 2-4 symbols (heavy repetition), lengths to 60 (a few to 200), under ==, under key equivalences mod 2..4 and div 2..3, and (correspondence only, outside the precondition) under a non-transitive, an irreflexive and a non-symmetric relation, where the real code can panic and the model must predict it. Every input is a window into a larger array with guards in front and a spare capacity of 0..3 elements behind (sentinels, or elements of the alphabet). Non-trivial = a side repeats an element (ambiguous alignment); distinct = distinct input lines.",
 		exec, func(g *tr.G) {
-			emit := func(mode int, l, r []int, tags ...string) {
-				in := "E " + strconv.Itoa(mode) + " " + tr.Ints(l) + " " + tr.Ints(r)
+			n := 0
+			// the spare capacity behind the two inputs: none at all, sentinels, or elements that
+			// look like input (so that an over-long slice would not stand out by its values only)
+			caps := func(l, r []int, nsym int) (lx, rx []int) {
+				n++
+				switch n % 4 {
+				case 0:
+					return nil, nil
+				case 1:
+					return []int{777, 777, 777}, []int{888, 888, 888}
+				case 2:
+					for k := g.R.Intn(4); k > 0; k-- {
+						lx = append(lx, g.R.Intn(nsym))
+					}
+					for k := g.R.Intn(4); k > 0; k-- {
+						rx = append(rx, g.R.Intn(nsym))
+					}
+					return lx, rx
+				}
+				// what the other side continues with
+				if len(r) > 0 {
+					lx = []int{r[len(r)-1]}
+				}
+				if len(l) > 0 {
+					rx = []int{l[len(l)-1], l[0]}
+				}
+				return lx, rx
+			}
+			emit := func(mode int, l, r []int, nsym int, tags ...string) {
+				lx, rx := caps(l, r, nsym)
+				in := "E " + strconv.Itoa(mode) + " " + tr.Ints(l) + " " + tr.Ints(r) + " " + tr.Ints(lx) + " " + tr.Ints(rx)
 				out := g.Emit(in, ambiguous(l, r, mode), tags...)
+				if len(lx) == 0 && len(rx) == 0 {
+					g.W.Count("cap=len", 1)
+				}
 				switch {
 				case strings.HasPrefix(out, "PANIC"):
 					g.W.Count("panicked", 1)
+					return
 				case strings.HasPrefix(out, ". /"):
 					g.W.Count("empty-script", 1)
+					return
 				}
-				if strings.Contains(out, "!:") {
-					g.W.Count("has-replace", 1)
+				eds := strings.Split(strings.SplitN(out, " / ", 2)[0], ";")
+				for _, c := range []struct{ op, name string }{{"!:", "has-replace"}, {"-:", "has-drop"}, {"+:", "has-copy"}} {
+					for _, e := range eds {
+						if strings.HasPrefix(e, c.op) {
+							g.W.Count(c.name, 1)
+							break
+						}
+					}
+				}
+				longRun, emits := false, 0
+				for _, e := range eds {
+					if strings.HasPrefix(e, "=:") {
+						emits++
+						if f := strings.Split(e, ":"); len(f) > 2 && strings.Contains(f[2], ",") {
+							longRun = true
+						}
+					}
+				}
+				if longRun {
+					g.W.Count("emit-run>=2", 1)
+				}
+				if emits >= 3 {
+					g.W.Count("emits>=3", 1)
+				}
+				if len(eds) >= 6 {
+					g.W.Count("edits>=6", 1)
+				}
+				if !strings.HasPrefix(eds[0], "=:") {
+					g.W.Count("starts-with-change", 1)
+				}
+				if !strings.HasPrefix(eds[len(eds)-1], "=:") {
+					g.W.Count("ends-with-change", 1)
 				}
 			}
 			// exhaustive small scopes
 			s2 := allSeqs([]int{0, 1}, g.Scale(6, 8))
 			for _, l := range s2 {
 				for _, r := range s2 {
-					emit(0, l, r, "exh-2sym")
+					emit(0, l, r, 2, "exh-2sym")
 				}
 			}
 			s3 := allSeqs([]int{0, 1, 2}, g.Scale(4, 5))
 			for _, l := range s3 {
 				for _, r := range s3 {
-					emit(0, l, r, "exh-3sym")
+					emit(0, l, r, 3, "exh-3sym")
 				}
 			}
 			s4 := allSeqs([]int{0, 1, 2, 3}, g.Scale(3, 4))
 			for _, l := range s4 {
 				for _, r := range s4 {
-					emit(2, l, r, "exh-keyed")
+					emit(2, l, r, 4, "exh-keyed-mod")
+					emit(102, l, r, 4, "exh-keyed-div")
 				}
 			}
-			// non-transitive relation, small exhaustive (correspondence only)
+			// relations that are not equivalences, small exhaustive (correspondence only)
 			sn := allSeqs([]int{0, 1, 2}, g.Scale(3, 4))
 			for _, l := range sn {
 				for _, r := range sn {
-					emit(-1, l, r, "exh-nontransitive")
-					emit(-2, l, r, "exh-irreflexive")
+					emit(-1, l, r, 3, "exh-nontransitive")
+					emit(-2, l, r, 3, "exh-irreflexive")
+					emit(-3, l, r, 3, "exh-nonsymmetric")
 				}
 			}
 			// random pairs from a common base
@@ -222,22 +314,29 @@ func main() {
 			for i := 0; i < g.Scale(3000, 60000); i++ {
 				nsym := g.R.Range(2, 4)
 				l, r := randPair(g.R.Range(5, 60), nsym)
-				emit(0, l, r, "random")
+				emit(0, l, r, nsym, "random")
 			}
 			for i := 0; i < g.Scale(2000, 40000); i++ {
 				k := g.R.Range(2, 4)
 				l, r := randPair(g.R.Range(5, 50), k*3) // keys 0..k-1, payloads 0..2
-				emit(k, l, r, "random-keyed")
+				emit(k, l, r, k*3, "random-keyed-mod")
+			}
+			for i := 0; i < g.Scale(1000, 20000); i++ {
+				k := g.R.Range(2, 3)
+				l, r := randPair(g.R.Range(5, 50), k*3) // keys 0..2, payloads 0..k-1
+				emit(100+k, l, r, k*3, "random-keyed-div")
 			}
 			for i := 0; i < g.Scale(500, 10000); i++ {
-				l, r := randPair(g.R.Range(3, 25), g.R.Range(3, 6))
-				emit(-1, l, r, "random-nontransitive")
-				emit(-2, l, r, "random-irreflexive")
+				nsym := g.R.Range(3, 6)
+				l, r := randPair(g.R.Range(3, 25), nsym)
+				emit(-1, l, r, nsym, "random-nontransitive")
+				emit(-2, l, r, nsym, "random-irreflexive")
+				emit(-3, l, r, nsym, "random-nonsymmetric")
 			}
 			for i := 0; i < g.Scale(10, 300); i++ {
 				nsym := g.R.Range(2, 5)
 				l, r := randPair(200, nsym)
-				emit(0, l, r, "random-long")
+				emit(0, l, r, nsym, "random-long")
 			}
 		})
 }
